@@ -2,6 +2,7 @@ import Toq.Model.MatrixOps
 import Toq.Model.MatrixPreds
 import Toq.Spec.MatrixOps
 import Toq.Proofs.Idx
+import Toq.Proofs.Cert
 import Mathlib.Algebra.BigOperators.Group.Finset.Basic
 import Mathlib.Algebra.BigOperators.Group.Finset.Sigma
 import Mathlib.Algebra.BigOperators.Ring.Finset
@@ -684,5 +685,153 @@ theorem normalV_yes_iff (A : Mat QI) (m : Rat) :
     rw [eqV_yes_iff _ _ m (by simp [mul, ctranspose, h]) (by simp [mul, ctranspose, h])]
     simp [mul, ctranspose, h, HasConj.conj]
   · simp [h]
+
+end Toq.MatrixPreds
+
+/-! ## readings of further deciders -/
+
+namespace Toq.MatrixPreds
+open Toq.MatrixOps
+
+theorem qi_i_mul_eq_conj_iff (a b : QI) : (⟨0, 1⟩ : QI) * a = ((⟨0, 1⟩ : QI) * b).conj ↔ a = -(b.conj) := by
+  cases a with | mk ar ai => cases b with | mk br bi =>
+  show (⟨0 * ar - 1 * ai, 0 * ai + 1 * ar⟩ : QI) = ⟨0 * br - 1 * bi, -(0 * bi + 1 * br)⟩ ↔ (⟨ar, ai⟩ : QI) = ⟨-br, - -bi⟩
+  simp only [QI.mk.injEq]
+  constructor
+  · rintro ⟨h1, h2⟩
+    constructor <;> linarith
+  · rintro ⟨h1, h2⟩
+    constructor <;> linarith
+
+theorem antiHermitianV_yes_iff (A : Mat QI) (m : Rat) :
+    antiHermitianV A m = .yes ↔ A.r = A.c ∧ ∀ i j, i < A.r → j < A.c → A.f i j = -((A.f j i).conj) := by
+  unfold antiHermitianV
+  rw [hermitianV_yes_iff]
+  simp only [scalarMul]
+  constructor
+  · rintro ⟨h, hall⟩
+    exact ⟨h, fun i j hi hj => (qi_i_mul_eq_conj_iff _ _).mp (hall i j hi hj)⟩
+  · rintro ⟨h, hall⟩
+    exact ⟨h, fun i j hi hj => (qi_i_mul_eq_conj_iff _ _).mpr (hall i j hi hj)⟩
+
+theorem projectionV_yes_iff (A : Mat QI) (m : Rat) :
+    projectionV A m = .yes ↔ A.r = A.c ∧ ∀ i j, i < A.r → j < A.c → sumN A.c (fun k => A.f i k * A.f k j) = A.f i j := by
+  unfold projectionV isSquare
+  by_cases h : A.r = A.c
+  · simp only [h, beq_self_eq_true, Bool.not_true, Bool.false_eq_true, ↓reduceIte, true_and]
+    rw [eqV_yes_iff (mul A A) A m (by simp [mul]) (by simp [mul])]
+    simp [mul, h]
+  · simp [h]
+
+theorem commutingV_yes_iff (A B : Mat QI) (m : Rat) (hc : A.c = B.c) :
+    commutingV A B m = .yes ↔ ∀ i j, i < A.r → j < B.c →
+      sumN A.c (fun k => A.f i k * B.f k j) - sumN B.c (fun k => B.f i k * A.f k j) = 0 := by
+  unfold commutingV
+  rw [eqV_yes_iff _ _ m (by simp [zeroMat, sub, mul]) (by simp [zeroMat, sub, mul, hc])]
+  simp [sub, mul, zeroMat]
+
+theorem circulantV_yes_iff (A : Mat QI) (m : Rat) :
+    circulantV A m = .yes ↔ A.r = A.c ∧ ∀ i j, i < A.r - 1 → j < A.r → A.f (i + 1) j = A.f i ((j + A.r - 1) % A.r) := by
+  unfold circulantV isSquare
+  by_cases h : A.r = A.c
+  · simp only [h, beq_self_eq_true, Bool.not_true, Bool.false_eq_true, ↓reduceIte, true_and]
+    exact eqV_yes_iff (⟨A.c - 1, A.c, fun i j => A.f (i + 1) j⟩ : Mat QI)
+      ⟨A.c - 1, A.c, fun i j => A.f i ((j + A.c - 1) % A.c)⟩ m rfl rfl
+  · simp [h]
+
+theorem Verdict.ofBool_yes_iff (b : Bool) : Verdict.ofBool b = .yes ↔ b = true := by
+  cases b <;> simp [Verdict.ofBool]
+
+theorem diagonalV_yes_iff (A : Mat QI) :
+    diagonalV A = .yes ↔ A.r = A.c ∧ ∀ i j, i < A.r → j < A.c → i ≠ j → A.f i j = 0 := by
+  unfold diagonalV isSquare
+  by_cases h : A.r = A.c
+  · simp only [h, beq_self_eq_true, Bool.not_true, Bool.false_eq_true, ↓reduceIte, true_and]
+    rw [Verdict.ofBool_yes_iff, allBelow_iff]
+    constructor
+    · intro hall i j hi hj hne
+      have := (allBelow_iff _ _).mp (hall i hi) j hj
+      simpa [hne] using this
+    · intro hall i hi
+      rw [allBelow_iff]
+      intro j hj
+      by_cases hij : i = j
+      · simp [hij]
+      · simp [hall i j hi hj hij]
+  · simp [h]
+
+theorem permutationV_yes_iff (A : Mat QI) :
+    permutationV A = .yes ↔ (∀ i j, i < A.r → j < A.c → A.f i j = 0 ∨ A.f i j = 1) ∧
+      (∀ i, i < A.r → sumN A.c (fun j => A.f i j) = 1) ∧ (∀ j, j < A.c → sumN A.r (fun i => A.f i j) = 1) := by
+  unfold permutationV
+  rw [Verdict.ofBool_yes_iff]
+  simp only [Bool.and_eq_true, allBelow_iff, Bool.or_eq_true, beq_iff_eq, and_assoc]
+  exact ⟨fun ⟨a, b, c⟩ => ⟨fun i j hi hj => a i hi j hj, b, c⟩, fun ⟨a, b, c⟩ => ⟨fun i hi j hj => a i j hi hj, b, c⟩⟩
+
+theorem isRealMat_iff (A : Mat QI) : isRealMat A = true ↔ ∀ i j, i < A.r → j < A.c → (A.f i j).im = 0 := by
+  unfold isRealMat
+  simp only [allBelow_iff, beq_iff_eq]
+  exact ⟨fun h i j hi hj => h i hi j hj, fun h i hi j hj => h i j hi hj⟩
+
+theorem nonnegativeV_yes_iff (A : Mat QI) :
+    nonnegativeV A = .yes ↔ ∀ i j, i < A.r → j < A.c → (A.f i j).im = 0 ∧ 0 ≤ (A.f i j).re := by
+  unfold nonnegativeV
+  by_cases hr : isRealMat A = true
+  · simp only [hr, Bool.not_true, Bool.false_eq_true, ↓reduceIte]
+    rw [Verdict.ofBool_yes_iff]
+    simp only [allBelow_iff, decide_eq_true_eq]
+    rw [isRealMat_iff] at hr
+    constructor
+    · intro h i j hi hj; exact ⟨hr i j hi hj, h i hi j hj⟩
+    · intro h i hi j hj; exact (h i j hi hj).2
+  · simp only [hr, Bool.not_false, ↓reduceIte, reduceCtorEq, false_iff]
+    intro h
+    exact hr ((isRealMat_iff A).mpr (fun i j hi hj => (h i j hi hj).1))
+
+end Toq.MatrixPreds
+
+/-! ## soundness of the definiteness certificates -/
+
+namespace Toq.MatrixPreds
+open Matrix
+open scoped ComplexOrder MatrixOrder
+
+theorem toM_diagE {n : Nat} (D : Fin n → Rat) :
+    (diagE D).toM = Matrix.diagonal (fun i => (((D i : Rat) : ℝ) : ℂ)) := by
+  ext i j
+  simp only [EMat.toM_apply, diagE, EMat.get_ofFn, Matrix.diagonal_apply]
+  split
+  · exact QI.toC_ofRat _
+  · apply Complex.ext <;> simp
+
+theorem psdCertLDL_sound {n : Nat} (A L : EMat n n) (D : Fin n → Rat) :
+    psdCertLDL A L D = true → A.toM.PosSemidef := by
+  intro h
+  simp only [psdCertLDL, Bool.and_eq_true, EMat.allFin_iff, decide_eq_true_eq] at h
+  obtain ⟨hD, hA⟩ := h
+  have hE := EMat.beq_sound _ _ hA
+  rw [EMat.toM_mul, EMat.toM_mul, EMat.toM_ct, toM_diagE] at hE
+  rw [hE, ← Matrix.mul_assoc]
+  apply Matrix.PosSemidef.mul_mul_conjTranspose_same
+  apply Matrix.PosSemidef.diagonal
+  intro i
+  show (0 : ℂ) ≤ (((D i : Rat) : ℝ) : ℂ)
+  exact_mod_cast hD i
+
+theorem npsdCert_sound {n : Nat} (A : EMat n n) (x : EMat n 1) (μ : Rat) :
+    npsdCert A x μ = true → ¬ (A.toM + (((μ : Rat) : ℝ) : ℂ) • (1 : Matrix (Fin n) (Fin n) ℂ)).PosSemidef := by
+  intro h hpsd
+  simp only [npsdCert, decide_eq_true_eq] at h
+  have h1 := hpsd.conjTranspose_mul_mul_same x.toM
+  have h2 := h1.diag_nonneg (i := (⟨0, by omega⟩ : Fin 1))
+  have e : (x.toMᴴ * (A.toM + (((μ : Rat) : ℝ) : ℂ) • (1 : Matrix (Fin n) (Fin n) ℂ)) * x.toM)
+      = (x.ct.mul ((A + EMat.scalar μ).mul x)).toM := by
+    rw [EMat.toM_mul, EMat.toM_mul, EMat.toM_ct, EMat.toM_add, EMat.toM_scalar, Matrix.mul_assoc]
+  rw [e] at h2
+  have h3 := (Complex.nonneg_iff.mp h2).1
+  simp only [EMat.toM_apply, QI.toC_re] at h3
+  have : ((((x.ct.mul ((A + EMat.scalar μ).mul x)).get ⟨0, by omega⟩ ⟨0, by omega⟩).re : Rat) : ℝ) < 0 := by
+    exact_mod_cast h
+  linarith
 
 end Toq.MatrixPreds
